@@ -15,6 +15,7 @@ tvars == <<vars, rid, l>>
 
 TInit == /\ rid \in 1..Len(Runs) /\ l = 1
          /\ Files = Runs[rid].files /\ NProc = Runs[rid].nproc /\ opts = <<Runs[rid].opts[1], Runs[rid].opts[2]>>
+         /\ csz \in 1..Len(Runs[rid].files)        \* (which chunking the pool used is inferred, not prescribed)
          /\ wrote = [f \in FileSet |-> <<>>]
          /\ nextChunk = 1
          /\ cur = [w \in Workers |-> <<0, 0>>]
